@@ -73,8 +73,10 @@ def observe(substitute, s, mapping):
     return ("ok", r)
 
 
-def check_string(s, acc, env, substitute, all_subsets=True):
-    """Evaluate s under every define/undefine subset of the names it can reach."""
+def check_string(s, acc, env, substitute, all_subsets=True, empties=True):
+    """Evaluate s under every define/undefine subset of the names it can reach; every non-empty subset once with
+    values full of '$' constructs and (empties) once with every defined name holding the EMPTY string - a name
+    whose value is '' has a value."""
     if "$" not in s:
         acc.current = (s, 0)
         obs = observe(substitute, s, {})
@@ -87,17 +89,17 @@ def check_string(s, acc, env, substitute, all_subsets=True):
     nref = len(refs)
     subsets = range(1 << nref) if all_subsets else (0, (1 << nref) - 1)
     seen_masks = set()
-    for mask in subsets:
-        if mask in seen_masks:
+    for mask, empty in [(m, e) for m in subsets for e in ((False, True) if empties and m else (False,))]:
+        if (mask, empty) in seen_masks:
             continue
-        seen_masks.add(mask)
+        seen_masks.add((mask, empty))
         dmap, emap, decoys_e = {}, {}, {}
         for bit, (kind, key) in enumerate(refs):
             if mask >> bit & 1:
                 if kind == "d":
-                    dmap[key] = value_for(kind, key)
+                    dmap[key] = "" if empty else value_for(kind, key)
                 else:
-                    emap[key] = value_for(kind, key)
+                    emap[key] = "" if empty else value_for(kind, key)
         # decoys: case-swapped spellings that must NOT be consulted
         for kind, key in refs:
             sw = swapcase_ascii(key)
@@ -117,19 +119,19 @@ def check_string(s, acc, env, substitute, all_subsets=True):
             env.set(emap, decoys_e, [k for kk, k in refs if kk == 'e'])
         exp = R.substitute(s, lambda n: dmap.get(n) if n == n.lower() else None,
                            lambda n: emap.get(n))
-        acc.current = (s, mask)
+        acc.current = (s, mask, empty)
         obs = observe(substitute, s, dmap)
         acc.ev()
         if "$" in s:
             acc.nt()
         acc.cls(exp[0])
-        compare(s, mask, refs, exp, obs, acc)
+        compare(s, mask, refs, exp, obs, acc, empty)
         acc.sample(lambda: {"string": s, "defined": [r for b, r in enumerate(refs) if mask >> b & 1],
                             "referenced": refs, "expected": exp, "observed": obs})
 
 
-def compare(s, mask, refs, exp, obs, acc):
-    case = {"string": s, "referenced": refs,
+def compare(s, mask, refs, exp, obs, acc, empty=False):
+    case = {"string": s, "referenced": refs, "values": "empty" if empty else "rich",
             "defined": [r for b, r in enumerate(refs) if mask >> b & 1]}
     if obs[0] == "internal":
         acc.violation("internal-error", case, obs, exp,
@@ -280,7 +282,7 @@ def shard_unicode(shard, acc):
         for cp in range(lo, hi):
             c = chr(cp)
             for pre, post in UNICODE_CONTEXTS:
-                check_string(pre + c + post, acc, env, substitute)
+                check_string(pre + c + post, acc, env, substitute, empties=False)
             check_isname("a" + c, acc, isname)
             check_isname(c, acc, isname)
             check_isname(c + "a", acc, isname)
@@ -297,8 +299,9 @@ def run(tier):
     run = core.Run(
         "C04", tier, "exploration",
         rule="every string of length <= n over the alphabet %r, under every define/undefine "
-             "subset of the mapping/environment names it references (values contain '$' "
-             "constructs; decoy entries under other letter cases); isname on the same strings; "
+             "subset of the mapping/environment names it references (every non-empty subset twice: "
+             "values that contain '$' constructs, and every defined name holding the EMPTY string; "
+             "decoy entries under other letter cases); isname on the same strings; "
              "every Unicode code point at one position of %d contexts; every single%s "
              "substitution/deletion in a 200-char seed. Non-trivial = (string, subset) pairs whose "
              "string contains '$' (shards partition the space, so the count is of distinct pairs)."
